@@ -256,3 +256,368 @@ Proof.
   inversion H; subst. destruct (parse_from (4 * length ts + 4) ts) as [He _].
   destruct (He 0 ts a [] (fun x Hx => Hx) E) as [A _]. exact A.
 Qed.
+
+(* ---- the environment ------------------------------------------------------------------------------------------------ *)
+
+Record env_ok (e : penv) : Prop := {
+  lowerK : forall c, inK c = true -> inK (pe_lower e c) = true;
+  lowerL : forall c, inL c = true -> inL (pe_lower e c) = true;
+  lower_idem : forall c, inK c = true -> pe_lower e (pe_lower e c) = pe_lower e c;
+  lower_ascii : forall c, (c <? 128)%N = true -> pe_lower e c = ascii_lower c;
+  schemes_ok : forall k, pe_valid_scheme e k = true -> key_chars k /\ lower e k = k;
+  urn_ok : forall v s pth, pe_urn e v = Some (s, pth) -> valid_codepoints pth;
+  phone_ok : forall s n, pe_phone e s = Some n -> valid_codepoints n
+}.
+
+Section Accepted.
+  Variable e : penv.
+  Hypothesis Henv : env_ok e.
+
+  Definition is_ascii (s : list N) : bool := forallb (fun c => (c <? 128)%N) s.
+
+  Lemma lower_ascii_str s : is_ascii s = true -> lower e s = map ascii_lower s.
+  Proof.
+    unfold lower, is_ascii. induction s as [|c s IH]; [reflexivity|]. cbn [forallb map]. intros H.
+    apply andb_prop in H. destruct H as [H1 H2]. rewrite (lower_ascii e Henv c H1), IH by exact H2. reflexivity.
+  Qed.
+
+  Lemma lower_fixed s : is_ascii s = true -> text_eqb (map ascii_lower s) s = true -> lower e s = s.
+  Proof. intros H1 H2. rewrite lower_ascii_str by exact H1. apply text_eqb_eq. exact H2. Qed.
+
+  Lemma lower_K s : forallb inK s = true -> forallb inK (lower e s) = true /\ lower e (lower e s) = lower e s.
+  Proof.
+    unfold lower. induction s as [|c s IH]; [split; reflexivity|]. cbn [forallb map]. intros H.
+    apply andb_prop in H. destruct H as [H1 H2]. destruct (IH H2) as [A B].
+    rewrite (lowerK e Henv c H1), A, (lower_idem e Henv c H1), B. split; reflexivity.
+  Qed.
+
+  Lemma lower_L_nodot s : forallb inL s = true -> forallb (fun c => negb (N.eqb c 46)) (lower e s) = true.
+  Proof.
+    unfold lower. induction s as [|c s IH]; [reflexivity|]. cbn [forallb map]. intros H.
+    apply andb_prop in H. destruct H as [H1 H2]. rewrite (IH H2), andb_true_r.
+    pose proof (lowerL e Henv c H1) as HL. apply negb_true_iff. apply N.eqb_neq. intros E. rewrite E in HL.
+    destruct class_facts as (_ & _ & D & _). congruence.
+  Qed.
+
+  (* conditions as the visitor can produce them, the validator aside *)
+  Definition cond_pre (pt : ptype) (key : list N) (o : oper) (v : list N) : Prop :=
+    key_ok pt key /\ op_ok o
+    /\ lower e (prop_prefix pt ++ key) = prop_prefix pt ++ key
+    /\ lower e (oper_text o) = oper_text o
+    /\ valid_codepoints v
+    /\ (redacted e v = true -> pt = PField \/ (pt = PAttr /\ key <> AttributeURN)).
+
+  Inductive pre_tree : node -> Prop :=
+  | pt_cond : forall pt key o v, cond_pre pt key o v -> pre_tree (Cond pt key o v)
+  | pt_comb : forall b ch, Forall pre_tree ch -> pre_tree (Comb b ch).
+
+  Lemma pre_tree_valid : forall n, pre_tree n -> conditions_valid e n = true -> valid_tree e n.
+  Proof.
+    induction n as [pt key o v|b ch IH] using node_ind'; intros Hp Hc.
+    - inversion Hp as [? ? ? ? (A & B & C & D & E & F)|]; subst. constructor. cbn [conditions_valid] in Hc.
+      repeat split; assumption.
+    - inversion Hp as [|? ? Hch]; subst. cbn [conditions_valid] in Hc. constructor.
+      rewrite Forall_forall in *. rewrite forallb_forall in Hc. intros c Hin. apply IH; auto.
+  Qed.
+
+  Lemma mk_cond_pre pt key o v :
+    key_ok pt key -> op_ok o -> lower e (prop_prefix pt ++ key) = prop_prefix pt ++ key ->
+    lower e (oper_text o) = oper_text o -> valid_codepoints v ->
+    (redacted e v = true -> pt = PField \/ (pt = PAttr /\ key <> AttributeURN)) -> cond_pre pt key o v.
+  Proof. intros. repeat split; assumption. Qed.
+
+  (* operators *)
+  Lemma oper_of_comp c : In c comp_texts ->
+    op_ok (lookup_oper (lower e c)) /\ lower e (oper_text (lookup_oper (lower e c))) = oper_text (lookup_oper (lower e c)).
+  Proof.
+    intros H. pose proof comp_texts_facts as F. rewrite forallb_forall in F. specialize (F c H).
+    apply andb_prop in F. destruct F as [F1 F2]. rewrite (lower_ascii_str c F1).
+    destruct (lookup_oper (map ascii_lower c)) eqn:E; try discriminate;
+      (apply andb_prop in F2; destruct F2 as [F2 F3]; split; [intros t; discriminate|apply lower_fixed; assumption]).
+  Qed.
+
+  Lemma lookup_In {A} k (l : list (list N * A)) x : lookup k l = Some x -> In (k, x) l.
+  Proof.
+    induction l as [|[k' y] l IH]; cbn [lookup]; [discriminate|].
+    destruct (text_eqb k k') eqn:E.
+    - intros H. inversion H; subst. apply text_eqb_eq in E. subst. left. reflexivity.
+    - intros H. right. auto.
+  Qed.
+
+  Lemma prefix_lower : lower e prefix_fields = prefix_fields /\ lower e prefix_urns = prefix_urns
+    /\ lower e [46%N] = [46%N].
+  Proof. repeat split; apply lower_fixed; reflexivity. Qed.
+
+  Lemma lower_app a b : lower e (a ++ b) = lower e a ++ lower e b.
+  Proof. unfold lower. apply map_app. Qed.
+
+  Lemma text_eqb_neq a b : text_eqb a b = false -> a <> b.
+  Proof. intros H E. subst. rewrite text_eqb_refl in H. discriminate. Qed.
+
+  (* VisitCondition *)
+  Lemma visit_condition_pre pr c v n : prop_shape pr -> In c comp_texts -> valid_codepoints v ->
+    visit_condition e pr c v = (n, []) -> exists pt key o, n = Cond pt key o v /\ cond_pre pt key o v.
+  Proof.
+    intros Hs Hc Hv H. destruct (oper_of_comp c Hc) as [Ho Hol].
+    destruct prefix_lower as (PF & PU & PD).
+    unfold visit_condition in H. fold (redacted e v) in H.
+    set (o := lookup_oper (lower e c)) in *.
+    destruct Hs as [[Hne Hk]|(a & k & -> & Hane & Ha & Hkne & Hk)].
+    - (* no prefix *)
+      destruct (lower_K pr Hk) as [HlK Hidem].
+      assert (Hlne : lower e pr <> []) by (destruct pr; [congruence|discriminate]).
+      rewrite (split_dot_key (lower e pr) HlK) in H.
+      destruct (is_attribute (lower e pr)) eqn:EA.
+      + inversion H as [[En Ee]]. exists PAttr, (lower e pr), o. split; [reflexivity|].
+        unfold is_attribute in EA. destruct (lookup (lower e pr) attributes) as [ft|] eqn:EL; [|discriminate].
+        apply mk_cond_pre; try assumption.
+        * exists ft. apply lookup_In. exact EL.
+        * intros Hr. right. split; [reflexivity|]. rewrite Hr, andb_true_r in Ee.
+          destruct (text_eqb (lower e pr) AttributeURN) eqn:EU; [discriminate|]. apply text_eqb_neq. exact EU.
+      + destruct (pe_valid_scheme e (lower e pr)) eqn:ES.
+        * inversion H as [[En Ee]]. exists PURN, (lower e pr), o. split; [reflexivity|].
+          destruct (schemes_ok e Henv _ ES) as [Hkc Hkl].
+          apply mk_cond_pre; try assumption.
+          -- cbn [prop_prefix]. rewrite lower_app, PU, Hkl. reflexivity.
+          -- intros Hr. rewrite Hr in Ee. discriminate.
+        * inversion H; subst. exists PField, (lower e pr), o. split; [reflexivity|].
+          apply mk_cond_pre; try assumption.
+          -- split; assumption.
+          -- cbn [prop_prefix]. rewrite lower_app, PF, Hidem. reflexivity.
+          -- intros _. left. reflexivity.
+    - (* type.key *)
+      destruct (lower_K k Hk) as [HlK Hidem].
+      assert (Hlne : lower e k <> []) by (destruct k; [congruence|discriminate]).
+      rewrite lower_app in H. change (46%N :: k) with ([46%N] ++ k) in H. rewrite lower_app, PD in H. cbn [app] in H.
+      rewrite (split_dot_prefixed (lower e a) (lower e k) HlK (lower_L_nodot a Ha)) in H.
+      destruct (text_eqb (lower e a) k_fields) eqn:EF.
+      + inversion H; subst. exists PField, (lower e k), o. split; [reflexivity|].
+        apply mk_cond_pre; try assumption.
+        * split; assumption.
+        * cbn [prop_prefix]. rewrite lower_app, PF, Hidem. reflexivity.
+        * intros _. left. reflexivity.
+      + destruct (text_eqb (lower e a) k_urns) eqn:EU; [|inversion H].
+        inversion H as [[En Ee]]. exists PURN, (lower e k), o. split; [reflexivity|].
+        apply mk_cond_pre; try assumption.
+        * split; assumption.
+        * cbn [prop_prefix]. rewrite lower_app, PU, Hidem. reflexivity.
+        * intros Hr. rewrite Hr in Ee. discriminate.
+  Qed.
+
+  (* strconv.Itoa *)
+  Lemma pos_digits_ascii : forall f n acc, Forall (fun c => (c < 128)%N) acc -> Forall (fun c => (c < 128)%N) (pos_digits f n acc).
+  Proof.
+    induction f as [|f IH]; intros n acc H; cbn [pos_digits]; [exact H|].
+    assert (Hd : (48 + n mod 10 < 128)%N) by (pose proof (N.mod_lt n 10 ltac:(discriminate)); lia).
+    destruct (N.eqb (n / 10) 0); [constructor; assumption|]. apply IH. constructor; assumption.
+  Qed.
+
+  Lemma ascii_valid s : Forall (fun c => (c < 128)%N) s -> valid_codepoints s.
+  Proof.
+    intros H. unfold valid_codepoints. eapply Forall_impl; [|exact H]. intros c Hc. apply small_valid. apply N.ltb_lt. exact Hc.
+  Qed.
+
+  Lemma itoa_valid z : valid_codepoints (itoa z).
+  Proof.
+    apply ascii_valid. destruct z; cbn [itoa].
+    - constructor; [reflexivity|constructor].
+    - apply pos_digits_ascii. constructor.
+    - constructor; [reflexivity|]. apply pos_digits_ascii. constructor.
+  Qed.
+
+  Lemma filter_valid f s : valid_codepoints s -> valid_codepoints (filter f s).
+  Proof.
+    unfold valid_codepoints. induction 1; cbn [filter]; [constructor|]. destruct (f x); [constructor|]; assumption.
+  Qed.
+
+  Lemma attr_cond_pre key o v : (exists ft, In (key, ft) attributes) -> key <> AttributeURN ->
+    is_ascii key = true -> text_eqb (map ascii_lower key) key = true -> (o = OpEqual \/ o = OpContains) ->
+    valid_codepoints v -> cond_pre PAttr key o v.
+  Proof.
+    intros Hin Hne Ha Hf Ho Hv. apply mk_cond_pre.
+    - exact Hin.
+    - destruct Ho as [-> | ->]; intros t; discriminate.
+    - cbn [prop_prefix app]. apply lower_fixed; assumption.
+    - destruct Ho as [-> | ->]; apply lower_fixed; reflexivity.
+    - exact Hv.
+    - intros _. right. split; [reflexivity|exact Hne].
+  Qed.
+
+  (* VisitImplicitCondition *)
+  Lemma visit_implicit_pre v : valid_codepoints v -> pre_tree (visit_implicit e v).
+  Proof.
+    intros Hv. unfold visit_implicit.
+    assert (Hname : forall o, o = OpEqual \/ o = OpContains -> pre_tree (Cond PAttr AttributeName o v)).
+    { intros o Ho. constructor. apply attr_cond_pre; try assumption; try reflexivity; [|discriminate].
+      exists FText. vm_compute. tauto. }
+    assert (Hnc : pre_tree (Cond PAttr AttributeName match name_tokens e v with [] => OpEqual | _ :: _ => OpContains end v)).
+    { apply Hname. destruct (name_tokens e v); auto. }
+    destruct (pe_redact e) eqn:ER.
+    - destruct (atoi v) as [z|]; [|exact Hnc].
+      constructor. apply attr_cond_pre; try reflexivity; [|discriminate|left; reflexivity|apply itoa_valid].
+      exists FText. vm_compute. tauto.
+    - assert (Hnr : forall x, redacted e x = false) by (intros x; unfold redacted; rewrite ER; reflexivity).
+      assert (Hnot : pre_tree (if implicit_phone v then Cond PURN k_tel OpContains (clean_phone v)
+                               else Cond PAttr AttributeName match name_tokens e v with [] => OpEqual | _ :: _ => OpContains end v)).
+      { destruct (implicit_phone v); [|exact Hnc]. constructor.
+        destruct prefix_lower as (_ & PU & _).
+        apply mk_cond_pre.
+        - split; [discriminate|vm_compute; reflexivity].
+        - intros t; discriminate.
+        - cbn [prop_prefix]. rewrite lower_app, PU. f_equal. apply lower_fixed; reflexivity.
+        - apply lower_fixed; reflexivity.
+        - apply filter_valid. exact Hv.
+        - rewrite Hnr. discriminate. }
+      destruct (pe_urn e v) as [[scheme path]|] eqn:EU; [|exact Hnot].
+      destruct (pe_valid_scheme e scheme) eqn:ES; [|exact Hnot].
+      destruct (schemes_ok e Henv _ ES) as [Hkc Hkl]. destruct prefix_lower as (_ & PU & _).
+      constructor. apply mk_cond_pre.
+      + exact Hkc.
+      + intros t; discriminate.
+      + cbn [prop_prefix]. rewrite lower_app, PU, Hkl. reflexivity.
+      + apply lower_fixed; reflexivity.
+      + eapply urn_ok; eauto.
+      + rewrite Hnr. discriminate.
+  Qed.
+
+  (* literals *)
+  Lemma Forall_removelast {A} (Q : A -> Prop) (l : list A) : Forall Q l -> Forall Q (removelast l).
+  Proof. induction 1 as [|x l Hx Hl IH]; [constructor|]. cbn [removelast]. destruct l; [constructor|]. constructor; assumption. Qed.
+
+  Lemma literal_value_valid k t v : valid_codepoints t -> literal_value (k, t) = LVal v -> valid_codepoints v.
+  Proof.
+    intros Ht H. unfold literal_value in H.
+    destruct (find (fun q => tkind_eqb (fst q) k) literal_alts) as [[k' [|]]|]; try (inversion H; subst; exact Ht).
+    destruct (unquote t) as [r| | |] eqn:U; try discriminate; inversion H; subst.
+    - eapply unquote_valid; eauto.
+    - apply Forall_removelast. destruct t; [constructor|]. inversion Ht; assumption.
+  Qed.
+
+  (* what the lexer guarantees of every token *)
+  Definition tok_fact (kt : token) : Prop :=
+    valid_codepoints (snd kt) /\ (fst kt = PROPERTY -> prop_shape (snd kt)) /\ (fst kt = COMPARATOR -> In (snd kt) comp_texts).
+
+  Lemma tok_ok_fact kt : tok_ok lexer_rules (fun c => valid_cp c = true) kt -> tok_fact kt.
+  Proof.
+    destruct kt as [k t]. unfold tok_ok. cbn [fst snd]. intros [Hv (ru & Hin & Hk & Hm)].
+    split; [exact Hv|]. cbn [fst snd]. split; intros K; rewrite K in Hk.
+    - rewrite (property_rule ru Hin Hk) in Hm. apply matches_property. exact Hm.
+    - rewrite (comparator_rule ru Hin Hk), re4 in Hm. apply matches_comparator. exact Hm.
+  Qed.
+
+  Lemma visit_pre : forall ts a n, Forall tok_fact ts -> ast_from ts a -> visit e a = VNode n [] -> pre_tree n.
+  Proof.
+    intros ts a. induction a as [pr c lit|lit|b l IHl r IHr]; intros n Hts Hf H; cbn [visit] in H.
+    - inversion Hf as [? ? ? Hp Hcm Hli| |]; subst. rewrite Forall_forall in Hts.
+      destruct (Hts _ Hp) as (_ & HP & _). destruct (Hts _ Hcm) as (_ & _ & HC). destruct (Hts _ Hli) as (HL & _).
+      destruct lit as [k t]. destruct (literal_value (k, t)) as [|v] eqn:EL; [discriminate|].
+      pose proof (literal_value_valid k t v HL EL) as Hv.
+      destruct (visit_condition e pr c v) as [n' errs] eqn:EV. inversion H; subst.
+      destruct (visit_condition_pre pr c v n (HP eq_refl) (HC eq_refl) Hv EV) as (pt & key & o & -> & Hc).
+      constructor. exact Hc.
+    - inversion Hf as [|? Hli|]; subst. rewrite Forall_forall in Hts. destruct (Hts _ Hli) as (HL & _).
+      destruct lit as [k t]. destruct (literal_value (k, t)) as [|v] eqn:EL; [discriminate|].
+      inversion H; subst. apply visit_implicit_pre. eapply literal_value_valid; eauto.
+    - inversion Hf as [| |? ? ? Hfl Hfr]; subst.
+      destruct (visit e l) as [|n1 e1] eqn:E1; [discriminate|]. destruct (visit e r) as [|n2 e2] eqn:E2; [discriminate|].
+      inversion H as [[En Ee]]. apply app_eq_nil in Ee. destruct Ee as [-> ->].
+      constructor. constructor; [eapply IHl; eauto|]. constructor; [eapply IHr; eauto|constructor].
+  Qed.
+
+  (* Simplify keeps valid trees valid *)
+  Lemma promote_valid b cs : Forall (valid_tree e) cs -> Forall (valid_tree e) (flat_map (promote b) cs).
+  Proof.
+    induction 1 as [|c cs Hc _ IH]; [constructor|]. cbn [flat_map]. apply Forall_app. split; [|exact IH].
+    destruct c as [pt k o v|b' gc]; cbn [promote]; [constructor; [exact Hc|constructor]|].
+    destruct (boolop_eqb b' b); [inversion Hc; assumption|constructor; [exact Hc|constructor]].
+  Qed.
+
+  Lemma simplify_valid : forall n q, valid_tree e n -> simplify n = Some q -> valid_tree e q.
+  Proof.
+    induction n as [pt k o v|b ch IH] using node_ind'; intros q Hv H.
+    - inversion H; subst. exact Hv.
+    - inversion Hv as [|? ? Hch]; subst. cbn [simplify] in H.
+      assert (Hcs : Forall (valid_tree e) (keep_some (map simplify ch))).
+      { clear H Hv. induction ch as [|c ch IHch]; [constructor|].
+        inversion IH; subst. inversion Hch; subst. cbn [map keep_some].
+        destruct (simplify c) eqn:E; [constructor; [eapply H1; eauto|]|]; auto. }
+      pose proof (promote_valid b _ Hcs) as Hp.
+      destruct (flat_map (promote b) (keep_some (map simplify ch))) as [|x [|y nc]]; cbn [finish] in H; [discriminate| |].
+      + inversion H; subst. inversion Hp; assumption.
+      + inversion H; subst. constructor. exact Hp.
+  Qed.
+
+  (* the text handed to the lexer *)
+  Lemma trim_left_valid s : valid_codepoints s -> valid_codepoints (trim_left s).
+  Proof. unfold valid_codepoints. induction 1 as [|c s Hc Hs IH]; cbn [trim_left]; [constructor|]. destruct (is_space c); [exact IH|constructor; assumption]. Qed.
+
+  Lemma trim_valid s : valid_codepoints s -> valid_codepoints (trim s).
+  Proof.
+    intros H. unfold trim, valid_codepoints. apply Forall_rev. apply trim_left_valid. apply Forall_rev. apply trim_left_valid. exact H.
+  Qed.
+
+  Lemma preprocess_valid s : valid_codepoints s -> valid_codepoints (preprocess e s).
+  Proof.
+    intros H. unfold preprocess. destruct (pe_redact e); [apply trim_valid; exact H|].
+    destruct (only_phone (trim (trim s))); [|apply trim_valid; exact H].
+    destruct (pe_phone e (trim s)) as [n|] eqn:EP; [|apply trim_valid; exact H].
+    unfold valid_codepoints. apply Forall_app. split; [repeat constructor|]. eapply phone_ok; eauto.
+  Qed.
+
+  (* every accepted query is a valid tree *)
+  Theorem accepted_valid : forall s q, valid_codepoints s -> parse_query e s = QOk (Some q) -> valid_tree e q.
+  Proof.
+    intros s q Hs H. unfold parse_query in H.
+    destruct (parse_front e s) as [| |n| |] eqn:F; try discriminate.
+    destruct (conditions_valid e n) eqn:CV; [|discriminate]. inversion H as [Hq].
+    apply (simplify_valid n q); [|exact Hq].
+    apply pre_tree_valid; [|exact CV].
+    unfold parse_front in F.
+    destruct (cql_lex (preprocess e s)) as [ts| |] eqn:L; try discriminate.
+    destruct (parse_tokens ts) as [| |a rest] eqn:P; try discriminate.
+    destruct (visit e a) as [|n' errs] eqn:V; [discriminate|]. destruct errs; [|discriminate]. inversion F; subst n'.
+    assert (Hts : Forall tok_fact ts).
+    { unfold cql_lex in L. pose proof (lex_sound lexer_rules (fun c => valid_cp c = true) _ ts (preprocess_valid s Hs) L) as HT.
+      eapply Forall_impl; [|exact HT]. intros kt. apply tok_ok_fact. }
+    eapply visit_pre; [exact Hts|eapply parse_tokens_from; exact P|exact V].
+  Qed.
+End Accepted.
+
+(* sentence 1: whatever ParseQuery accepts formats to a text that ParseQuery turns into the same query *)
+Theorem parse_print_parse_env : forall p e s q, p 10%N = false -> env_ok e -> valid_codepoints s ->
+  parse_query e s = QOk (Some q) -> parse_query e (stringify p (Some q)) = QOk (Some q).
+Proof.
+  intros p e s q Hnl He Hs H. eapply parse_print_parse; [exact Hnl|exact H|].
+  eapply accepted_valid; eauto.
+Qed.
+
+(* the hypotheses are satisfiable: ASCII lower-casing (identity elsewhere), `tel` the only scheme *)
+Lemma ascii_lower_inK_inL : forallb (fun c => (inK c || negb (inK (ascii_lower c))) && (inL c || negb (inL (ascii_lower c)))
+                                                && (negb (inK c) || inK (ascii_lower c)) && (negb (inL c) || inL (ascii_lower c)))
+                                    (map N.of_nat (seq 65 26)) = true.
+Proof. vm_compute. reflexivity. Qed.
+
+Lemma env_example_ok : forall redact, env_ok (env_example redact ascii_lower).
+Proof.
+  intros redact.
+  assert (Hup : forall c, ascii_lower c <> c -> In c (map N.of_nat (seq 65 26))).
+  { intros c H. unfold ascii_lower in H. destruct ((65 <=? c) && (c <=? 90))%N eqn:E; [|congruence].
+    apply andb_prop in E. destruct E as [E1 E2]. apply N.leb_le in E1. apply N.leb_le in E2.
+    apply in_map_iff. exists (N.to_nat c). split; [apply N2Nat.id|]. apply in_seq. lia. }
+  assert (Hcls : forall c, (inK c = true -> inK (ascii_lower c) = true) /\ (inL c = true -> inL (ascii_lower c) = true)).
+  { intros c. destruct (N.eq_dec (ascii_lower c) c) as [->|Hne]; [split; auto|].
+    pose proof ascii_lower_inK_inL as F. rewrite forallb_forall in F. specialize (F c (Hup c Hne)).
+    apply andb_prop in F. destruct F as [F F4]. apply andb_prop in F. destruct F as [F F3].
+    split; intros Hc; rewrite Hc in *; cbn [negb orb] in *; assumption. }
+  constructor; cbn [env_example pe_lower pe_valid_scheme pe_urn pe_phone].
+  - intros c. apply Hcls.
+  - intros c. apply Hcls.
+  - intros c _. unfold ascii_lower. destruct ((65 <=? c) && (c <=? 90))%N eqn:E; [|rewrite E; reflexivity].
+    apply andb_prop in E. destruct E as [E1 E2]. apply N.leb_le in E1. apply N.leb_le in E2.
+    replace ((65 <=? c + 32) && (c + 32 <=? 90))%N with false; [reflexivity|].
+    symmetry. apply andb_false_iff. right. apply N.leb_gt. lia.
+  - reflexivity.
+  - intros k H. apply text_eqb_eq in H. subst k. split; [split; [discriminate|vm_compute; reflexivity]|reflexivity].
+  - discriminate.
+  - discriminate.
+Qed.
